@@ -732,6 +732,7 @@ pub fn run_case(case: &ChanCase) -> CaseReport {
 pub enum ChanAny {
     Chan(ChanCase),
     Iter(crate::iter::IterCase),
+    Soak { rounds: u32 },
 }
 
 fn run_any(c: &ChanAny) -> CaseReport {
@@ -740,6 +741,17 @@ fn run_any(c: &ChanAny) -> CaseReport {
         ChanAny::Iter(c) => {
             let mut r = crate::iter::run_case(c);
             r.classes.push("channel-inside-iterator".into());
+            r
+        }
+        ChanAny::Soak { rounds } => {
+            // replay of the soak: run it again through a throw-away report
+            let mut wr = WorkerReport::default();
+            let args = WorkerArgs { tier: if *rounds > 1_000_000 { Tier::Thorough } else { Tier::Quick }, seed: 0, worker: 0, workers: 1, cases: 0 };
+            soak(&C08, &args, &mut wr);
+            let mut r = CaseReport::default();
+            if let Some((k, m, _)) = wr.violation {
+                r.viol(&k, m);
+            }
             r
         }
     }
@@ -780,7 +792,7 @@ pub static C06: PropDef = PropDef {
     shrink_iters: 4000,
     worker,
     replay,
-    extra: None,
+    extra: Some(soak),
 };
 
 pub static C07: PropDef = PropDef {
@@ -804,5 +816,60 @@ pub static C08: PropDef = PropDef {
     shrink_iters: 4000,
     worker,
     replay,
-    extra: None,
+    extra: Some(soak),
 };
+
+/// Long-run soak (worker 0): one channel instance used for a long time from one thread - counters
+/// that wrap, generations that run out and tables that fill up only show after tens of thousands
+/// of operations, far beyond what a generated program does. Oracle: a 5-place FIFO model.
+fn soak(def: &PropDef, args: &WorkerArgs, report: &mut WorkerReport) {
+    let known = Known::load();
+    let rounds: u32 = if args.tier == Tier::Thorough { 3_000_000 } else { 150_000 };
+    let mut rep = CaseReport::default();
+    rep.hash = hash_of(&("soak", rounds));
+    rep.class("long-run-soak");
+    rep.nontrivial = true;
+    let seed = args.seed;
+    let r = std::panic::catch_unwind(move || {
+        let ch: Channel<u32> = Channel::new();
+        let mut model: std::collections::VecDeque<u32> = std::collections::VecDeque::new();
+        let mut x = seed.wrapping_mul(6364136223846793005).wrapping_add(1442695040888963407) | 1;
+        let mut bad: Option<String> = None;
+        for i in 0..rounds {
+            x ^= x << 13;
+            x ^= x >> 7;
+            x ^= x << 17;
+            // mostly one-in/one-out, sometimes fill up, overflow and drain
+            let burst = if x % 64 == 0 { 7 } else { 1 };
+            for k in 0..burst {
+                let v = i.wrapping_mul(8).wrapping_add(k);
+                ch.send(v);
+                if model.len() < 5 {
+                    model.push_back(v);
+                }
+            }
+            let take = if x % 5 == 0 { 0 } else { burst };
+            for _ in 0..take {
+                let got = ch.recv();
+                let want = model.pop_front();
+                if got != want && bad.is_none() {
+                    bad = Some(format!("round {}: recv returned {:?}, the 5-place FIFO model says {:?}", i, got, want));
+                }
+            }
+        }
+        bad
+    });
+    match r {
+        Ok(None) => {}
+        Ok(Some(msg)) => rep.viol("C06/soak-mismatch", msg),
+        Err(_) => {
+            let m = vsched::take_last_panic().unwrap_or_default();
+            rep.viol("C08/panic=long-run", format!("a channel operation panicked after a long single-threaded history: {}", m));
+            rep.viol("C06/soak-mismatch", format!("panic: {}", m));
+        }
+    }
+    rep.sample = Some(json!({"soak": {"rounds": rounds}}));
+    if let Some(v) = report.absorb(def, &rep, &known) {
+        report.violation = Some((v.key, v.msg, json!({"Soak": {"rounds": rounds}})));
+    }
+}
